@@ -40,7 +40,7 @@ ASSUMPTIONS = [
 MARKERS = ['QXZV', 'Zyxwvut']
 # markers that end in letters which are also connector words (a clean-up that strips 'and' / 'in' / 'of' / 'the' must not
 # bite into an ordinary word); used on the intact, colon-less, lead and trail variants
-TAIL_MARKERS = ['Garland', 'Franklin', 'Thereof', 'Bathe']   # none starts with n/s/e/w: right after a Twp/Rge number such a letter *is* its direction
+TAIL_MARKERS = ['Garland', 'Woodland', 'Franklin', 'Thereof', 'Bathe']   # 'Woodland': a word that starts with a direction letter
 # a three-letter word: with its two blanks the raw block reaches MIN_REPORTABLE_UNUSED_LEN, so it is reportable as well
 SHORT_MARKERS = ['QXZ']
 _TRAPS = None
@@ -61,11 +61,15 @@ EXTRA_SEEDS = [
     'That part of the NE/4 of Section 14 of T154N-R97W lying north of the river',
     'Township 154 North, Range 97 West, of the 5th P.M. Sec 14: NE/4, Sec 15: Lots 1 - 3',
     'T154N-R97W Sec 14 NE/4, Sec 15 W/2',
+    # the same Twp/Rge/Sec referred to by two separate section references (each with its own block), and by a range + a single
+    'T154N-R97W Sec 14: NE/4, Sec 15: W/2, Sec 14: Lots 1, 2',
+    'NE/4 of Sec 14, T154N-R97W, SW/4 of Sec 14, T154N-R97W',
+    'T154N-R97W Sec 13 - 15: S/2, Sec 14: NE/4',
 ]
 _p = None
 # a marker that is followed, on the same line and within the reach of the meridian pattern ('.{0,25}' plus filler), by a
 # P.M. designation may be discarded together with it (exempt by the statement); the predicate is deliberately a superset
-PM_WINDOW = re.compile(r'(QXZV?|Zyxwvut|Garland|Franklin|Thereof|Bathe|Qx[a-z]+xq)[^\n]{0,45}?(?<![A-Za-z])(P\.\s?M\.|Principal\s+Meridian)',
+PM_WINDOW = re.compile(r'(QXZV?|Zyxwvut|Garland|Woodland|Franklin|Thereof|Bathe|Qx[a-z]+xq)[^\n]{0,45}?(?<![A-Za-z])(P\.\s?M\.|Principal\s+Meridian)',
                        re.IGNORECASE)
 CONNECTORS = {'the', 'of', 'in', 'and', 'all'}
 
